@@ -17,11 +17,12 @@ def jobs(tier):
         for esc in ((0, 1) if not arr else (0,)):
             add('tmpl.a%d.e%d' % (arr, esc), [-1, 2, arr, esc, 1 if q else 0], ('[V,W,X]' if arr else '{"a":V,"b":W,"a":X}' + (' with key a spelled \\u0061' if esc else '')) + ' with %s symbolic values x all 14 paths' % ('1-byte' if q else '2-byte'), nproc=8)
     fills = [31, 64] if q else list(range(28, 37)) + list(range(60, 69))
+    KN = {0: 'spaces', 1: 'string content with brackets', 2: 'string content ending in an escaped quote (backslash on the last byte of a 16/32/64-byte block)'}
     for sk in ((1, 2, 3) if q else range(5)):
-        for kind in (0, 1):
-            for f in fills:
+        for kind in (0, 1, 2):
+            for f in (fills if kind < 2 else ([17, 33, 64, 65] if q else [16, 17, 18, 32, 33, 34, 63, 64, 65, 66, 67, 129])):
                 add('fill.s%d.k%d.f%d' % (sk, kind, f), [-1, 1, sk, f, kind, 3 if q else 4],
-                    'skeleton %d + %d filler bytes (%s) + %d symbolic bytes completing a valid text x all 14 paths' % (sk, f, 'spaces' if kind == 0 else 'string content with brackets', 3 if q else 4), nproc=2)
+                    'skeleton %d + %d filler bytes (%s) + %d symbolic bytes completing a valid text x all 14 paths' % (sk, f, KN[kind], 3 if q else 4), nproc=2)
     return J
 
 
